@@ -1362,21 +1362,32 @@ func c15Routing(p *Program, r *Report) {
 	for _, fn := range p.methodsOf(lc.Sys) {
 		res := fn.Signature.Results()
 		if fn.Parent() == nil && res.Len() == 1 && mb != nil && types.Identical(res.At(0).Type(), mb) && fn.Signature.Params().Len() == 1 {
-			find = fn
+			// the lookup proper is the one that compares the reference's address with the system's own (a helper extracted from
+			// its remote branch has the same signature)
+			has := false
+			for _, ifi := range ifsOf(fn) {
+				if f, ok := condFact(ifi.Cond, true); ok && f.Y != nil && anyContains(p.origins(f.X), "GetAddress") && anyContains(p.origins(f.Y), "GetAddress") {
+					has = true
+				}
+			}
+			if has || find == nil {
+				find = fn
+			}
 		}
 	}
 	if find == nil {
 		r.Unresolved("mailbox lookup")
 		return
 	}
-	g := p.ig(find)
+	g := p.igx(find)
+	defer p.withGraph(g)()
 	factory := nodesWhere(g, func(in ssa.Instruction) bool {
 		c := callOf(in)
 		return c != nil && p.isRemoteMailboxFactory(c.StaticCallee())
 	})
 	// edge: ref address != own address
 	diff := map[edge]bool{}
-	for _, ifi := range ifsOf(find) {
+	for _, ifi := range g.ifs() {
 		for _, outcome := range []bool{true, false} {
 			f, ok := condFact(ifi.Cond, outcome)
 			if !ok || f.Y == nil || f.Op != token.NEQ {
@@ -1415,10 +1426,17 @@ func c15Routing(p *Program, r *Report) {
 			if !reach[ex] {
 				continue
 			}
-			v := strip(retOperand(g.Nodes[ex].(*ssa.Return), 0))
-			c, isC := v.(*ssa.Call)
-			if !isC || !p.isRemoteMailboxFactory(c.Call.StaticCallee()) {
-				ok2 = false
+			// the returns that produce the value: the root's own, or — when it returns the result of a spliced-in helper —
+			// that helper's returns, each judged only if reachable on this path
+			for _, rn := range g.effectiveReturns(ex, 0) {
+				if !reach[rn] {
+					continue
+				}
+				v := g.res(retOperand(g.Nodes[rn].(*ssa.Return), 0))
+				c, isC := v.(*ssa.Call)
+				if !isC || !p.isRemoteMailboxFactory(c.Call.StaticCallee()) {
+					ok2 = false
+				}
 			}
 		}
 	}
